@@ -1,4 +1,5 @@
 #!/bin/bash
+export VERIF_EVIDENCE_DIR=/tmp/verif-scratch-evidence
 # usage: tools/run_seeds.sh [Cxx ...]   applies each /verif/seeded/<id>/patch.diff to /repo, runs the property's quick check, reverts
 cd /verif
 for d in seeded/*/; do
